@@ -346,11 +346,10 @@ func (ChainedContextualPos) isGPOSLookup() {}
 func (ExtensionPos) isGPOSLookup()         {}
 
 func (sp *SinglePos) Sanitize() error {
-	if f2, isFormat2 := sp.Data.(SinglePosData2); isFormat2 {
-		if exp, got := coverageLen(f2.coverage), len(f2.ValueRecords); exp != got {
-			return fmt.Errorf("GPOS: invalid SinglePos values count (%d != %d)", exp, got)
-		}
-	}
+	// A format 2 subtable with fewer (or more) value records than covered glyphs is
+	// accepted, as harfbuzz does: a glyph whose coverage index has no record is just
+	// not positioned (the index is checked when the lookup is applied). Rejecting
+	// it would discard the whole GPOS table.
 	return nil
 }
 
